@@ -3,6 +3,8 @@
 #ifndef VERIF_SCHED_BODIES_H_
 #define VERIF_SCHED_BODIES_H_
 
+#include <pthread.h>
+
 #include <atomic>
 #include <cstring>
 #include <functional>
@@ -48,9 +50,11 @@ struct World {
   std::map<std::string, int> fcalls;
   std::mutex mu;           // only contended in the free-running pass
   std::vector<std::string> cur_load;  // per thread: name being loaded right now ("" if none)
+  std::vector<pthread_t> cur_thread;  // per slot: the OS thread that is executing that load_time_zone call
   void reset_exec(size_t nthreads) {
     flog.clear(); inside = 0; max_inside = 0; fcalls.clear();
     cur_load.assign(nthreads + 1, "");
+    cur_thread.assign(nthreads + 1, pthread_self());
   }
 };
 inline World& world() { static World* w = new World; return *w; }
@@ -82,8 +86,18 @@ inline std::unique_ptr<cctz::ZoneInfoSource> Factory(const std::string& name,
     w.fcalls[name]++;
     const std::vector<std::string>& cl = w.cur_load;
     const int me = vsched::self();
-    // (1) the invoking thread must be the one that is inside load_time_zone(name) right now
-    const bool on_caller = (me < 0) ? true : (me < static_cast<int>(cl.size()) && cl[me] == name);
+    // (1) the invoking thread must be the one that is inside load_time_zone(name) right now:
+    // some slot must be loading this name from exactly this OS thread (a helper thread spawned by
+    // the library would have no slot of its own and a different pthread id)
+    bool on_caller = false;
+#ifdef VERIF_FREE_RUNNING
+    on_caller = true;
+#else
+    {
+      const size_t slot = (me < 0) ? cl.size() - 1 : static_cast<size_t>(me);
+      on_caller = slot < cl.size() && cl[slot] == name && pthread_equal(w.cur_thread[slot], pthread_self());
+    }
+#endif
     w.flog.push_back({me, name, true, w.inside, on_caller});
   }
   VP_POINT(VP_FACTORY_ENTER, nullptr);  // yield while inside: another invocation may now overlap
@@ -140,6 +154,7 @@ inline void run_ops(const std::vector<Op>& ops, Obs* obs) {
         cctz::time_zone tz;
 #ifndef VERIF_FREE_RUNNING
         world().cur_load[slot] = op.name;
+        world().cur_thread[slot] = pthread_self();
 #endif
         bool ok = cctz::load_time_zone(op.name, &tz);
 #ifndef VERIF_FREE_RUNNING
